@@ -14,7 +14,7 @@ RULE = ("(1) Hypothesis-generated synthetic rulesets x flag sets, real queue dra
         "pre-terminal may occur in emitted+heap more often than that multiplicity; small cases are also expanded and the "
         "Counter of guesses compared with the model language. (2) exhaustive small-scope sweep of single-structure grids "
         "(1-3 variables, 1-3 groups each, probabilities from small pools chosen to create every tie pattern, repeated types). "
-        "Non-trivial = some node has >=2 parents with exactly equal float probability; distinct = hash of the model.")
+        "Non-trivial = some node has >=2 parents with exactly equal float probability; distinct = hash of the model. Scale part large_queue (shared with C01): 59 049 base structures, no repeats and the i-th largest probability at position i.")
 ASSUMPTIONS = ["ruleset lists are sorted by non-increasing probability with strictly decreasing groups (loader regroups them identically)",
                "the heap is observed through PcfgQueue.p_queue (intermediate states); if that attribute disappears the frontier invariant is skipped and counted"]
 
